@@ -488,8 +488,9 @@ impl<'a> RefDict<'a> {
             bb = bb.min(pbest);
             tp = tp.saturating_add(if pi == usize::MAX { 1 } else { tot[pi] });
         }
-        // C13 counts EOS evaluations over the nodes ending at the sentence end.
-        for &pi in &ends[len] {
+        // C13: the connection to EOS is evaluated for the nodes EOS is attached to, i.e. those ending where
+        // the trailing (skipped) space run starts — the sentence end when nothing is skipped.
+        for &pi in &ends[eos_from] {
             let (right, _, _, _) = pred(&lat.nodes, pi);
             lat.lid_count[0] += 1;
             lat.rid_count[usize::from(right)] += 1;
